@@ -45,6 +45,9 @@ pub fn run(ctx: &Ctx) {
         BTreeMap<String, u16>, BTreeMap<String, Vec<u8>>,
         SNamed, SGen<u8>, SGen<i16>, SGen<String>,
     );
+    // every JSON-unambiguous composition W1<W2<L>> (generated lists: 140 types; 441 with the cargo
+    // feature `composed-types` that the thorough tier builds with)
+    crate::composed_types_c17!(dom_all!(ctx, n;));
     chk::<SUnit>(ctx, "SUnit", vec![SUnit], &mut n);
     chk::<SNew>(ctx, "SNew", i16::dom().into_iter().map(SNew).collect(), &mut n);
     chk::<STup>(ctx, "STup", <(u8, i64, String)>::dom().into_iter().map(|(a, b, c)| STup(a, b, c)).collect(), &mut n);
@@ -65,4 +68,5 @@ pub fn run(ctx: &Ctx) {
     ctx.add_evals(n);
     ctx.add_nontrivial(n);
     ctx.class("typed-corpus-comparisons", n);
+    ctx.class("composed-types(generated W1<W2<L>> list)", crate::checks::typed_gen::COMPOSED_C17 as u64);
 }
